@@ -167,7 +167,7 @@ def run_property(prop, tier, seed, replay=None):
         for k, m in getattr(mon, "MINIMA", {}).get(tier, getattr(mon, "MINIMA", {}).get("*", {})).items():
             if counters[k] < m:
                 reasons.append("counter %s=%d below minimum %d" % (k, counters[k], m))
-        if timeouts > max(2, len(cases) // 20):
+        if timeouts > getattr(mon, "MAX_TIMEOUTS", max(2, len(cases) // 20)):
             reasons.append("%d cases hit the wall-clock watchdog" % timeouts)
         if len(nontrivial) < 2:
             reasons.append("fewer than 2 distinct non-trivial cases")
